@@ -192,9 +192,36 @@ pub fn malformed_line() -> impl Strategy<Value = Vec<u8>> {
     ]
 }
 
+/// a fragment line of the current traffic with ONE field spelled wrongly (sequence id 300 / 7x / x,
+/// count 256, fragment number "+2", fill 6 ...) and a correct checksum: rejected for its form, but
+/// only if every field is really validated - and it must leave no trace
+pub fn junk_field_fragment() -> impl Strategy<Value = Ev> {
+    (2u32..=5, any::<u16>(), seq_id(), token_payload(), 0usize..4, prop::sample::select(vec!["300", "256", "777", "x", "7x", "1 ", " 1", "+1", "-1", "1.0", "0x1", "1e0", "\u{0661}"])).prop_map(
+        |(n, ksel, id, payload, which, junk)| {
+            let k = 1 + ((ksel as u32 * n) >> 16);
+            let f = |v: u32| v.to_string();
+            let (ns, ks, ids, fills) = match which {
+                0 => (junk.to_string(), f(k), id.map(|i| i.to_string()).unwrap_or_default(), "0".to_string()),
+                1 => (f(n), junk.to_string(), id.map(|i| i.to_string()).unwrap_or_default(), "0".to_string()),
+                2 => (f(n), f(k), junk.to_string(), "0".to_string()),
+                _ => (f(n), f(k), id.map(|i| i.to_string()).unwrap_or_default(), if junk == "1 " || junk == " 1" { junk.to_string() } else { "6".to_string() }),
+            };
+            let mut body = Vec::new();
+            body.extend_from_slice(format!("AIVDM,{},{},{},A,", ns, ks, ids).as_bytes());
+            body.extend_from_slice(&payload);
+            body.extend_from_slice(format!(",{}", fills).as_bytes());
+            let mut line = vec![b'!'];
+            line.extend_from_slice(&body);
+            line.extend_from_slice(format!("*{:02X}", crate::util::xor(&body)).as_bytes());
+            Ev::Raw(line)
+        },
+    )
+}
+
 /// noise that must leave no trace: unfragmented sentences, bad checksums, malformed lines
 pub fn noise_ev() -> impl Strategy<Value = Ev> {
     prop_oneof![
+        2 => junk_field_fragment(),
         4 => (payload_field(60), any::<bool>()).prop_map(|((payload, fill), decode)| Ev::Single { payload, fill, decode }),
         2 => (2u8..6, 1u8..6, seq_id(), token_payload()).prop_map(|(n, k, id, payload)| Ev::BadChecksum { n, k: k.min(n), id, payload }),
         1 => token_payload().prop_map(|payload| Ev::BadChecksum { n: 1, k: 1, id: None, payload }),
